@@ -45,6 +45,16 @@ func (prop) Gen(r *core.Rand, tier string) []core.Case {
 		n = 4000
 	}
 	cs := append([]core.Case(nil), fixed...)
+	// one call whose batch is LARGE (34 chunks of 256 KiB = 8.5 MiB, pinned): the model's `writes` says one Commit,
+	// so a store that splits a big batch into several commits (size- or count-triggered flushing in shed.Batch or
+	// in a driver) shows up as a crash prefix strictly inside the call
+	{
+		var parts []string
+		for i := 0; i < 34; i++ {
+			parts = append(parts, fmt.Sprintf("%02x:@%d.262144", 0x40+i, 7+i))
+		}
+		cs = append(cs, core.Case{ID: "fix-big-batch", NT: true, Ops: []string{"put uppin - " + strings.Join(parts, ","), "has pin 61", "get req - 60", "reopen"}})
+	}
 	for i := 0; i < n; i++ {
 		cfg := lsharness.GenConfig{MinOps: 6, MaxOps: 28, GC: true, Reopen: true, ClockStep: i%3 == 0, Batches: 30,
 			Sync: i%8 == 0, BadModes: i%12 == 0, SetDups: i%9 == 0, DirectWrites: 70}
